@@ -739,100 +739,148 @@ func derivedGuards(gs []Guard) []Guard {
 		}
 		var common map[gk]Guard
 		nRet := 0
-		for _, blk := range h.Blocks {
-			ret, ok := blk.Instrs[len(blk.Instrs)-1].(*ssa.Return)
-			if !ok || blk == h.Recover {
-				continue
-			}
-			rg := guardsOf(blk)
-			compatible := true
-			var extra []Guard
-			for _, c := range cons {
-				if c.idx >= len(ret.Results) {
-					compatible = false
-					break
-				}
-				leaves := phiLeaves(retResult(ret, c.idx))
-				anyOK := false
-				for _, lf := range leaves {
-					lf = stripLocal(lf)
-					if k, isK := lf.(*ssa.Const); isK {
-						switch c.kind {
-						case 't', 'f':
-							if k.Value != nil && constant.BoolVal(k.Value) == (c.kind == 't') {
-								anyOK = true
-							}
-						case 'n':
-							if k.IsNil() {
-								anyOK = true
-							}
-						case 'v':
-							if !k.IsNil() {
-								anyOK = true
-							}
-						}
+		if len(cons) == 1 && (cons[0].kind == 't' || cons[0].kind == 'f') {
+			// one bool answer: per leaf of the result (a short-circuit
+			// expression returns a phi: each edge has its own guards)
+			c0 := cons[0]
+			for _, lf := range returnLeaves(h, c0.idx) {
+				var here []Guard
+				if k, isK := constOf(lf.Val); isK {
+					if k == nil || constant.BoolVal(k) != (c0.kind == 't') {
 						continue
 					}
-					// a computed value: contradicted only if this very
-					// return stands under the opposite test of it
+				} else {
+					cond, br := stripLocal(lf.Val), c0.kind == 't'
+					for {
+						if u, ok := cond.(*ssa.UnOp); ok && u.Op == token.NOT {
+							cond, br = u.X, !br
+							continue
+						}
+						break
+					}
 					contra := false
-					for _, g2 := range rg {
-						switch c.kind {
-						case 't', 'f':
-							if stripLocal(g2.Cond) == lf && g2.Branch != (c.kind == 't') {
-								contra = true
-							}
-						case 'n', 'v':
-							if b2, ok := g2.Cond.(*ssa.BinOp); ok && (b2.Op == token.EQL || b2.Op == token.NEQ) {
-								var y ssa.Value
-								if isNilConst(b2.Y) {
-									y = b2.X
-								} else if isNilConst(b2.X) {
-									y = b2.Y
+					for _, g2 := range lf.Guards() {
+						if stripLocal(g2.Cond) == cond && g2.Branch != br {
+							contra = true
+						}
+					}
+					if contra {
+						continue
+					}
+					here = append(here, Guard{Cond: cond, Branch: br})
+				}
+				here = append(here, lf.Guards()...)
+				nRet++
+				m := map[gk]Guard{}
+				for _, g2 := range here {
+					m[gk{g2.If, nilIfHasIf(g2), g2.Branch}] = g2
+				}
+				if common == nil {
+					common = m
+				} else {
+					for k := range common {
+						if _, ok := m[k]; !ok {
+							delete(common, k)
+						}
+					}
+				}
+			}
+		} else {
+			for _, blk := range h.Blocks {
+				ret, ok := blk.Instrs[len(blk.Instrs)-1].(*ssa.Return)
+				if !ok || blk == h.Recover {
+					continue
+				}
+				rg := guardsOf(blk)
+				compatible := true
+				var extra []Guard
+				for _, c := range cons {
+					if c.idx >= len(ret.Results) {
+						compatible = false
+						break
+					}
+					leaves := phiLeaves(retResult(ret, c.idx))
+					anyOK := false
+					for _, lf := range leaves {
+						lf = stripLocal(lf)
+						if k, isK := lf.(*ssa.Const); isK {
+							switch c.kind {
+							case 't', 'f':
+								if k.Value != nil && constant.BoolVal(k.Value) == (c.kind == 't') {
+									anyOK = true
 								}
-								if y != nil && stripLocal(y) == lf {
-									saysNil := (b2.Op == token.EQL) == g2.Branch
-									if saysNil != (c.kind == 'n') {
-										contra = true
+							case 'n':
+								if k.IsNil() {
+									anyOK = true
+								}
+							case 'v':
+								if !k.IsNil() {
+									anyOK = true
+								}
+							}
+							continue
+						}
+						// a computed value: contradicted only if this very
+						// return stands under the opposite test of it
+						contra := false
+						for _, g2 := range rg {
+							switch c.kind {
+							case 't', 'f':
+								if stripLocal(g2.Cond) == lf && g2.Branch != (c.kind == 't') {
+									contra = true
+								}
+							case 'n', 'v':
+								if b2, ok := g2.Cond.(*ssa.BinOp); ok && (b2.Op == token.EQL || b2.Op == token.NEQ) {
+									var y ssa.Value
+									if isNilConst(b2.Y) {
+										y = b2.X
+									} else if isNilConst(b2.X) {
+										y = b2.Y
+									}
+									if y != nil && stripLocal(y) == lf {
+										saysNil := (b2.Op == token.EQL) == g2.Branch
+										if saysNil != (c.kind == 'n') {
+											contra = true
+										}
 									}
 								}
 							}
 						}
-					}
-					if !contra {
-						anyOK = true
-						if (c.kind == 't' || c.kind == 'f') && len(leaves) == 1 {
-							cond, br := lf, c.kind == 't'
-							for {
-								if u, ok := cond.(*ssa.UnOp); ok && u.Op == token.NOT {
-									cond, br = u.X, !br
-									continue
+						if !contra {
+							anyOK = true
+							if (c.kind == 't' || c.kind == 'f') && len(leaves) == 1 {
+								cond, br := lf, c.kind == 't'
+								for {
+									if u, ok := cond.(*ssa.UnOp); ok && u.Op == token.NOT {
+										cond, br = u.X, !br
+										continue
+									}
+									break
 								}
-								break
+								extra = append(extra, Guard{Cond: cond, Branch: br})
 							}
-							extra = append(extra, Guard{Cond: cond, Branch: br})
 						}
 					}
+					if !anyOK {
+						compatible = false
+						break
+					}
 				}
-				if !anyOK {
-					compatible = false
-					break
+				if !compatible {
+					continue
 				}
-			}
-			if !compatible {
-				continue
-			}
-			nRet++
-			here := map[gk]Guard{}
-			for _, g2 := range append(rg, extra...) {
-				here[gk{g2.If, nilIfHasIf(g2), g2.Branch}] = g2
-			}
-			if common == nil {
-				common = here
-			} else {
-				for k := range common {
-					if _, ok := here[k]; !ok {
-						delete(common, k)
+				nRet++
+				here := map[gk]Guard{}
+				for _, g2 := range append(rg, extra...) {
+					here[gk{g2.If, nilIfHasIf(g2), g2.Branch}] = g2
+				}
+				if common == nil {
+					common = here
+				} else {
+					for k := range common {
+						if _, ok := here[k]; !ok {
+							delete(common, k)
+						}
 					}
 				}
 			}
@@ -1725,6 +1773,10 @@ type stepTable struct {
 	Call     ssa.CallInstruction // the dynamic call in the loop
 	Header   *ssa.BasicBlock
 	ExitEdge func(g Guard) bool // the edge leaving the loop because the rows are exhausted
+	// Abort: the loop leaves the function on the first error (steps gated
+	// on their predecessors' success). RunAll: nothing leaves the loop
+	// early, every row runs whatever the others returned.
+	Abort, RunAll bool
 }
 
 func stepDbg(format string, args ...interface{}) {
@@ -1961,11 +2013,98 @@ func stepTablesOf(f *ssa.Function) []*stepTable {
 			}
 		}
 		walk(call.Block())
-		if !okUncond || !okAbort {
-			stepDbg("%s: uncond=%v abort=%v", f.Name(), okUncond, okAbort)
+		// or: nothing leaves the loop except the range running out
+		okRunAll := true
+		for _, b := range f.Blocks {
+			if b == hdr || !inNaturalLoop(b, hdr) {
+				continue
+			}
+			if len(b.Succs) == 0 {
+				okRunAll = false
+			}
+			for _, sc := range b.Succs {
+				if !inNaturalLoop(sc, hdr) {
+					okRunAll = false
+				}
+			}
+		}
+		if !okUncond || !(okAbort || okRunAll) {
+			stepDbg("%s: uncond=%v abort=%v runall=%v", f.Name(), okUncond, okAbort, okRunAll)
 			continue
 		}
-		out = append(out, &stepTable{Fns: fns, Call: call, Header: hdr, ExitEdge: func(g Guard) bool { return isRangeCond(g) && !g.Branch }})
+		out = append(out, &stepTable{Fns: fns, Call: call, Header: hdr, ExitEdge: func(g Guard) bool { return isRangeCond(g) && !g.Branch }, Abort: okAbort, RunAll: okRunAll})
 	}
 	return out
+}
+
+// rangeOverLiteral: ia indexes a slice literal built in the same function
+// with the variable of a range loop over it, in a block that runs on every
+// iteration (the only test between the loop header and the block is the
+// range condition). Returns the literal's elements in order: the loop is
+// the sequence of its body for rows[0], rows[1], ...
+func rangeOverLiteral(ia *ssa.IndexAddr, at *ssa.BasicBlock) (rows []ssa.Value, hdr *ssa.BasicBlock, ok bool) {
+	sl, isSl := ia.X.(*ssa.Slice)
+	if !isSl || sl.Low != nil || sl.High != nil {
+		return nil, nil, false
+	}
+	arr, isA := sl.X.(*ssa.Alloc)
+	if !isA || arr.Referrers() == nil {
+		return nil, nil, false
+	}
+	byIdx := map[int64]ssa.Value{}
+	for _, ref := range *arr.Referrers() {
+		switch x := ref.(type) {
+		case *ssa.Slice:
+		case *ssa.IndexAddr:
+			k, isK := constInt(x.Index)
+			if !isK || x.Referrers() == nil {
+				return nil, nil, false
+			}
+			for _, r2 := range *x.Referrers() {
+				st, isSt := r2.(*ssa.Store)
+				if !isSt || st.Addr != ssa.Value(x) {
+					return nil, nil, false
+				}
+				byIdx[k] = st.Val
+			}
+		default:
+			return nil, nil, false
+		}
+	}
+	for k := int64(0); k < int64(len(byIdx)); k++ {
+		v, has := byIdx[k]
+		if !has {
+			return nil, nil, false
+		}
+		rows = append(rows, v)
+	}
+	if len(rows) == 0 {
+		return nil, nil, false
+	}
+	var phi *ssa.Phi
+	switch x := ia.Index.(type) {
+	case *ssa.Phi:
+		phi = x
+	case *ssa.BinOp:
+		if k, isK := constInt(x.Y); x.Op == token.ADD && isK && k == 1 {
+			phi, _ = x.X.(*ssa.Phi)
+		}
+	}
+	if phi == nil {
+		return nil, nil, false
+	}
+	hdr = phi.Block()
+	for _, g := range guardsOf(at) {
+		if g.Derived || g.If == nil || !inNaturalLoop(g.If.Block(), hdr) {
+			continue
+		}
+		b, isB := g.Cond.(*ssa.BinOp)
+		if !isB || b.Op != token.LSS || b.X != ia.Index || !g.Branch {
+			return nil, nil, false
+		}
+		if lc, _ := originCallLocal(b.Y); lc == nil || callName(lc.Common()) != "builtin.len" {
+			return nil, nil, false
+		}
+	}
+	return rows, hdr, true
 }
